@@ -91,14 +91,39 @@ def r44(F):
     return r
 
 
+def _consts_of(fn, b):
+    out = []
+    blk = fn.blocks[b]
+    ops = []
+    for st in blk["stmts"]:
+        if st[0] == "assign":
+            ops += st[2].get("ops", []) or []
+    if blk["term"]["k"] == "call":
+        ops += blk["term"]["args"]
+    for op in ops:
+        if "str" in op:
+            out.append(op["str"])
+        for c in op.get("promoted", []) or []:
+            if "str" in c:
+                out.append(c["str"])
+        if isinstance(op.get("const"), str):
+            out.append(op["const"])
+    return out
+
+
 def r45(F):
     r = RuleResult("R45", "strictness wiring",
                    "Op::Index calls op_index(!strict), Op::SafeIndex op_index(true); in op_index the safe edge pushes NULL, the other returns Err",
                    floor=4)
+    # decided end to end by evaluation (absint): what the dispatcher passes for each opcode, as a function of the strict flag, is
+    # read off the call; op_index is then evaluated with that argument and that flag, and the question is whether the
+    # "Invalid selector index" error is built and whether NULL is pushed.  Where the `!strict` is computed does not matter
+    from .. import absint as AI
     run = F.fn(VM + "run")
     o = Origins(run)
     a = TR.arms(run, TR.OP)
-    for variant, want in (("Index", "not-strict"), ("SafeIndex", "true")):
+    passed = {}
+    for variant in ("Index", "SafeIndex"):
         ent = a.get(variant)
         need(ent, "no dispatch arm for Op::%s" % variant)
         blocks = {b for sb, e in ent for b in range(len(run.blocks)) if cfg.dominates(run, e, b)}
@@ -106,25 +131,61 @@ def r45(F):
         need(len(calls) == 1, "Op::%s does not call op_index exactly once" % variant)
         b, t = calls[0]
         arg = t["args"][1]
-        if want == "true":
-            ok = arg.get("int") == "1"
-            r.inst("run:SafeIndex", run.where(b), ok, "op_index(true)" if ok else "SafeIndex does not pass safe=true")
+        if arg.get("int") in ("0", "1"):
+            passed[variant] = (b, lambda strict, v=(arg["int"] == "1"): v)
         else:
-            labs = o.at(arg, b)
-            ok = ("un", "Not") in labs and ("field", "strict") in labs and ("field", "runtime") in labs
-            r.inst("run:Index", run.where(b), ok, "op_index(!self.runtime.strict)" if ok else "Index does not pass the negated strict flag")
+            # the argument is computed in the arm itself: follow its definition there (`!self.runtime.strict`, `self.runtime.strict`)
+            neg = False
+            cur = op_local(arg)
+            found = False
+            for _ in range(4):
+                defs = [(bb, rv) for bb, j, pl, rv, m in run.assigns() if bb in blocks and pl["l"] == cur and not pl["p"]]
+                if len(defs) != 1:
+                    break
+                rv = defs[0][1]
+                src = op_place(rv["ops"][0]) if rv.get("ops") else None
+                if rv["k"] == "un" and rv.get("op") == "Not" and src is not None and not src["p"]:
+                    neg = not neg
+                    cur = src["l"]
+                    continue
+                if rv["k"] == "use" and src is not None:
+                    fields = [e.get("f") for e in src["p"] if isinstance(e, dict)]
+                    if fields[-2:] == ["runtime", "strict"] and src["l"] == 1:
+                        found = True
+                        break
+                    if not src["p"]:
+                        cur = src["l"]
+                        continue
+                break
+            need(found, "Op::%s: the flag passed to op_index is not read by this rule" % variant)
+            passed[variant] = (b, (lambda strict: not strict) if neg else (lambda strict: strict))
     oi = F.fn(VM + "op_index")
-    sw = util.bool_switches(oi, 2)
-    need(sw, "parameter `safe` is not tested in op_index")
-    err_blocks = {b for b, j, pl, rv, m in oi.assigns() if pl["l"] == 0 and rv["k"] == "agg" and rv.get("variant") == "Err"}
-    for sb, ft, tt in sw:
-        # safe edge: pushes Primitive::Empty, returns Ok, no Err
-        treg = cfg.reachable(oi, tt)
-        empties = [b for b, j, pl, rv, m in oi.assigns() if b in treg and rv["k"] == "agg" and rv.get("variant") == "Empty"]
-        ok_t = bool(empties) and not (treg & err_blocks)
-        ok_f = util.must_pass(oi, ft, err_blocks, exits=cfg.exits(oi))
-        r.inst("op_index:safe", oi.where(sb), ok_t, "safe: NULL pushed, no error" if ok_t else "safe edge does not yield NULL")
-        r.inst("op_index:strict", oi.where(sb), ok_f, "strict: every path returns Err" if ok_f else "strict edge can return Ok")
+    need(oi.nargs >= 2 and oi.local_ty(2) == "bool", "op_index(&mut self, flag: bool, ..) expected")
+    msgs = [b for b in range(len(oi.blocks)) if not oi.is_cleanup(b) and any("Invalid selector index" in str(x) for x in _consts_of(oi, b))]
+    need(msgs, "op_index: the `Invalid selector index` error was not found")
+    empties = [b for b, j, pl, rv, m in oi.assigns() if rv["k"] == "agg" and rv.get("variant") == "Empty"]
+    need(empties, "op_index never builds NULL")
+    skey = (1, ("*", ("f", "runtime"), ("f", "strict")))
+    table = {}
+    for variant in ("Index", "SafeIndex"):
+        for strict in (True, False):
+            sim = AI.Sim(F)
+            try:
+                sim.run(oi, [AI.U, ("b", passed[variant][1](strict))] + [AI.U] * (oi.nargs - 2), init={skey: ("b", strict)})
+            except AI.Lossy as e:
+                need(False, "op_index: %s" % e)
+            vb = {b for n, b in sim.visited if n == oi.name}
+            table[(variant, strict)] = (bool(vb & set(msgs)), bool(vb & set(empties)))
+    need(any(x[0] for x in table.values()) and any(x[1] for x in table.values()), "op_index: the evaluation reaches neither the error nor NULL (the flag is read some other way)")
+    okI = table[("Index", True)] == (True, False) and table[("Index", False)] == (False, True)
+    r.inst("run:Index", run.where(passed["Index"][0]), okI, "a missing selector is an error under strict checking and NULL without it" if okI else
+           "Index: missing selector gives (error, NULL) = %s when strict and %s when not" % (table[("Index", True)], table[("Index", False)]))
+    okS = table[("SafeIndex", True)] == (False, True) and table[("SafeIndex", False)] == (False, True)
+    r.inst("run:SafeIndex", run.where(passed["SafeIndex"][0]), okS, "`?.` never fails for a missing selector" if okS else
+           "SafeIndex: missing selector gives (error, NULL) = %s when strict and %s when not" % (table[("SafeIndex", True)], table[("SafeIndex", False)]))
+    r.inst("op_index:safe", oi.where(empties[0]), okS and table[("Index", False)][1], "NULL pushed, no error, whenever the flag asks for it"
+           if okS and table[("Index", False)][1] else "the null-coalescing case does not yield NULL")
+    r.inst("op_index:strict", oi.where(msgs[0]), table[("Index", True)][0], "strict Index: the error is built" if table[("Index", True)][0] else "strict Index can return Ok for a missing selector")
     # Builtins.strict comes from the --no-strict flag
     return r
 
@@ -183,11 +244,22 @@ def r46(F):
     reg = util.region(gb, tt, stop)
     gets = [b for b, t in gb.calls() if b in reg and callee(t) == "ucglib::build::opcode::scope::Stack::get"]
     tup = [b for b, t in gb.calls() if b in reg and callee(t).endswith("::get_env_vars_tuple")]
-    if not tup:
-        # `symbols.get(name).or_else(|| .. get_env_vars_tuple ..)`: the fallback sits in a closure of get_binding
-        in_clo = [n for n in F.fns if n.startswith(gb.name + "::{closure") and any(callee(t).endswith("::get_env_vars_tuple") for b, t in F.fns[n].calls())]
-        need(not in_clo, "get_binding: the environment tuple is produced in a closure (or_else): the order of the two lookups is not read by this rule")
     ok = bool(gets) and bool(tup) and all(cfg.dominates(gb, gets[0], x) for x in tup)
+    if not ok:
+        # another spelling (`symbols.get(name).or_else(|| .. get_env_vars_tuple ..)`, a match on the name): decide by evaluation -
+        # with the local lookup answering Some the environment tuple is not asked for, with None it is
+        from .. import absint as AI
+        GET = "ucglib::build::opcode::scope::Stack::get"
+        def asked(found):
+            sim = AI.Sim(F, force_all={GET: AI.enum(AI.OPTION, "Some", AI.U) if found else AI.enum(AI.OPTION, "None")})
+            try:
+                sim.run(gb, [AI.U] * gb.nargs)
+            except AI.Lossy as e:
+                need(False, "get_binding: %s" % e)
+            return any(F.fns[n].term(b)["k"] == "call" and callee(F.fns[n].term(b)).endswith("::get_env_vars_tuple") for n, b in sim.visited if n in F.fns)
+        any_get = [1 for n in F.fns if n == gb.name or n.startswith(gb.name + "::{closure") for b, t in F.fns[n].calls() if callee(t) == GET]
+        need(any_get, "get_binding does not look the name up in the local symbols at all")
+        ok = asked(False) and not asked(True)
     # the tuple is used only on the is_none edge of the local lookup
     r.inst("get_binding:env", gb.where(sb), ok, "local symbol named env wins; otherwise the environment tuple" if ok else "`env` does not consult local symbols before the environment tuple")
     return r
